@@ -195,15 +195,26 @@ class Workspace:
                 return (u["unit"], None, p.stderr)
             # helper specialisation (tools/irspec.cc): pointer-returning accessors, drivers with indirect calls and
             # helpers behind trivial wrappers are inlined; a tree without such helpers passes through unchanged
-            # to a fixpoint (at most 3 rounds): a helper that only qualifies after another one was inlined into it
+            # inlining decisions to a fixpoint first (a helper may only qualify after another one was inlined into
+            # it), with loop unrolling switched off so that helpers keep their shape while decisions are made;
+            # then one final run that also unrolls
             src_ll = base + ".raw.ll"
-            for rnd in range(3):
-                p = subprocess.run([IRSPEC, src_ll, base + ".spec.ll"], capture_output=True, text=True)
+            for rnd in range(4):
+                final = rnd == 3
+                p = subprocess.run([IRSPEC, src_ll, base + ".spec.ll"] + ([] if final else ["-nounroll"]), capture_output=True, text=True)
                 if p.returncode != 0:
                     return (u["unit"], None, "irspec: " + p.stderr)
                 dec = [l for l in p.stderr.splitlines() if l.startswith(("inline ", "thread "))]
                 self.spec_log.extend("%s: %s" % (u["unit"], l) for l in p.stderr.splitlines() if l.startswith("inline "))
+                if final:
+                    break
                 if not dec or rnd == 2:
+                    # fixpoint (or round limit): the final run on the result
+                    os.replace(base + ".spec.ll", base + ".spec0.ll")
+                    src_ll = base + ".spec0.ll"
+                    p = subprocess.run([IRSPEC, src_ll, base + ".spec.ll"], capture_output=True, text=True)
+                    if p.returncode != 0:
+                        return (u["unit"], None, "irspec: " + p.stderr)
                     break
                 os.replace(base + ".spec.ll", base + ".spec0.ll")
                 src_ll = base + ".spec0.ll"
